@@ -127,9 +127,10 @@ def run(tier, seed):
     # ---- (ii) bounded iteration of the data-dependent loops, (iii) their argument ranges established at the call sites.
     # Uninstrumented harnesses (plain CBMC, everything inlined): the obligations are unwinding assertions / call-site assertions.
     tj = []
-    # (ii-b) lgamma: the loop contracts exist (vlib/c14loops.py) but the dfcc-instrumented query does not finish within the quick tier's limits
-    # (attempted in the thorough tier); the iteration bound is discharged as unwinding assertions of plain CBMC on the fully inlined
-    # function instead -- complete for the claim "at most K iterations for every argument in the range", labelled as such in the evidence
+    # (ii-b) lgamma: loop contracts are enforced on the function with its straight-line tail cut (ll2c cut_after_loops) and the polynomial
+    # kernels as opaque callees: lgamma<double>::other in both tiers, lgamma<float>::other in the thorough tier.  In addition the iteration
+    # bound of lgamma<float>::other (both tiers) and lgamma<double>::other (thorough) is discharged as unwinding assertions of plain CBMC on the
+    # fully inlined function -- complete for the claim "at most K iterations for every argument in the range", labelled as such
     for n in sorted(loopfn):
         if loopfn[n][1] in ("tgamma_other", "ipow") or os.environ.get("C14_NO_UNWIND"):
             continue
@@ -146,7 +147,7 @@ def run(tier, seed):
                re.search(r"xsimd::kernel::detail::(gammaln\w+<[^()]*>|tgamma_kernel<.*>::compute)\(", f["demangled"]))}
     # (ipow keeps its scalar locals in memory -- no SROA -- so that the loop contract can name the source variable b)
     lj = [{"target": n, "out": os.path.join(wd, "W_%s.c" % sha(n)), "opts": {"loops_as_while": True, "sroa": loopfn[n][1] != "ipow", "cut_after_loops": loopfn[n][1].startswith("lgamma")}, "keep": sorted(opaque)} for n in sorted(loopfn)
-          if loopfn[n][1] in ("tgamma_other", "ipow") or tier == "thorough"]
+          if loopfn[n][1] in ("tgamma_other", "ipow", "lgamma_impl<double>::other") or tier == "thorough" or os.environ.get("C14_LGAMMA_FLOAT_CONTRACTS")]
     lres = pipeline.run_ll2c(bc, lj, wd, "c14w", keep_all=keep)
     # the recursion lgamma<double> -> large_negative -> lgamma(|x|) is cut at the public lgamma (stubbed: its own obligations are separate)
     lg_api = [n for n, f in fnmap.items() if f.get("defined") and re.search(r"xsimd::batch<(float|double), [^>]+> xsimd::lgamma<", f["demangled"])]
